@@ -484,7 +484,7 @@ theorem eta_batch (w : IWorld) (hb : w.batch = true) : { w with batch := true } 
   cases w; simp_all
 
 /-- inside an open batch, a block of assignments and `update`s is the sequence of its assignments -/
-theorem runSimples_batch : ∀ (body : List Simple) (w w' : IWorld), w.batch = true →
+theorem runSimples_batch : ∀ (body : List SimpleOp) (w w' : IWorld), w.batch = true →
     runSimples w body = (true, w') → setKeys w (body.flatMap simpleAssignments) = (true, w') := by
   intro body
   induction body with
